@@ -268,3 +268,55 @@ def aes_typestate_rules(facts, rep, rule="C16-TSX"):
     for key in ("eof-sticky", "finalized=>exhausted"):
         ok &= rep.check(key not in bad, rule, key, where(rd[0], rd[0].span), "holds in all %d reachable states" % len(states), bad.get(key, ""))
     return ok and not pan
+
+
+# ------------------------------------------------------------------------------------------------------------------ ZipFile (lazy reader)
+def zipfile_typestate_rules(facts, rep, rule="C05-TS-ZIPFILE"):
+    """E6 applied to read::ZipFile: abstract state (reader: variant of ZipFileReader, crypto_reader: Some | None); initial states read
+    off every function that constructs a ZipFile (by_index*, by_index_raw, read_zipfile_from_stream); alphabet {read, get_raw_reader,
+    drop}.  Obligation: `expect("Invalid reader state")` and the other state-decided panics are dead for every sequence of calls."""
+    from engine.query import aggregates
+    ok = True
+    tracked = {("reader",): "enum", ("crypto_reader",): "enum"}
+    spec = Spec(tracked, r"^read::(make_reader|make_crypto_reader|ZipFile::|ZipFileReader|CryptoReader)|ZipFile<")
+    m = Machine(facts, spec)
+    ctors = [f for f in facts.fns if any(True for _ in aggregates(f, r"^read::ZipFile$"))]
+    meths = []
+    for g in facts.fns:
+        if g.impl_self and re.search(r"^read::ZipFile<", g.impl_self) and g.name in ("read", "drop", "get_raw_reader", "get_reader") and g.name != "get_reader":
+            meths.append((g.name, g))
+    try:
+        inits = []
+        for c in ctors:
+            for kind, rav, s2 in m.run(c, [TOP] * c.arg_count, {}):
+                v = rav
+                for _ in range(4):
+                    if kind == "ret" and v[0] == "var" and v[1] in ("Ok", "Some") and v[2][0] in ("var", "struct"):
+                        v = v[2]
+                if kind == "ret" and v[0] == "struct" and v[1].startswith("read::ZipFile"):
+                    d = dict(v[2])
+                    inits.append((c.name, {P: spec.coerce(P, d.get(P[0], TOP)) for P in tracked}))
+        if not inits or not meths:
+            raise Unsupported("no ZipFile construction / methods found")
+        states, trans = explore(m, inits, meths, lambda fn, sg: [("ref", ())] + [TOP] * (fn.arg_count - 1), dead_after=("drop",), max_states=500)
+    except (Unsupported, TooComplex) as e:
+        rep.violation(rule, "tsx-unsupported", "", "ZipFile's state machine could not be computed on this tree (%s) -- fail closed" % str(e)[:200])
+        return False
+    rep.count("zipfile_typestate_states", len(states))
+    rep.count("zipfile_typestate_inits", len({freeze_(s) for _, s in inits}))
+    pan = {}
+    for (k, lab, kind, oc, k2, rav) in trans:
+        if kind != "ret":
+            key = "tsx-panic:%s<-%s" % (re.sub(r"\s*@.*$", "", kind[1]), lab)
+            pan.setdefault(key, (trace(states, k), kind[1], show_state(states[k][0])))
+    for key, (tr, site, st) in sorted(pan.items()):
+        ok = False
+        rep.violation(rule, key, site.split("@")[-1].strip().split(" ")[0], "a call can panic: %s, in state [%s] (%s)" % (tr, st, site))
+    rep.check(not pan, rule, "tsx-panic-free", "", "no state-decided panic in any of %d reachable states of ZipFile x %s (constructors: %s)" % (
+        len(states), [l for l, _ in meths], sorted({l for l, _ in inits})), "%d panic(s) reachable" % len(pan))
+    bad = [show_state(sg) for sg, _, _ in states.values() if sg[("reader",)][:2] == ("var", "NoReader") and sg[("crypto_reader",)][:2] == ("var", "None") and _ is not None]
+    return ok
+
+
+def freeze_(d):
+    return tuple(sorted(d.items()))
